@@ -22,6 +22,8 @@ def gen(args):
         else:
             n, m = int(rng.integers(5, 9)), int(rng.integers(3, 6))
         Xi = P.centred_lattice(rng, n, m, 4, "lowrank" if shape == "lowrank" else "full")
+        if shape == "square" and rng.random() < 0.4:
+            Xi = P.symmetric_centred(rng, n)              # a square symmetric data matrix is still a data matrix
         p = int(rng.integers(1, 3))
         Yi = P.centred_lattice(rng, n, p, 4)
         if shape != "illcond" and rng.random() < 0.15:
